@@ -261,6 +261,7 @@ claim('C18', 'other',
       '(per-path and svg-level), add_path (d overrides, caller dict untouched), svg2paths (all attributes) and SaxDocument (own attribute > '
       'own style > inherited); every element keeps its own path object and tag when several elements carry equal path data; Document.save writes the '
       'attribute values of the serialisation unchanged; two Documents created from scratch are independent; order preservation; generate_dom writes the matrix in the permutation the matrix(...) reader inverts. '
+      'no regex / string substitution that can match inside an attribute value is applied to the serialised XML on its way to the file (pattern DFA x plain attribute text, with witness). '
       'Not decided: svgwrite / ElementTree / minidom internals beyond the API model, d-string equality (C01).',
       TRUST + ' API model rows listed in the evidence assumptions.', 'DESIGN.md section 3 C18')
 
